@@ -411,7 +411,11 @@ class Net:
             h = hashlib.blake2b(f'{self.seed}|{site}|{t}|{n}'.encode(), digest_size=8).digest()
             v = lo + int.from_bytes(h, 'big') % (hi - lo + 1)
         v = max(lo, min(hi, int(v)))
-        self.emit(None, 'rand', site=site, lo=lo, hi=hi, v=v)
+        try:
+            task = asyncio.current_task()
+        except RuntimeError:
+            task = None
+        self.emit(None, 'rand', site=site, lo=lo, hi=hi, v=v, task=task.get_name() if task is not None else '')
         return v
 
     # ---------------------------------------------------------------- hosts
